@@ -94,11 +94,11 @@ Theorem C02_destroy_block_wf : forall ss, wf_sset_b ss = true -> forall patch i 
 Proof. exact destroy_block_wf. Qed.
 Print Assumptions C02_destroy_block_wf.
 
-(* cse() with the repaired comparator.  [params_swo_b]: on the parameters of
-   the parametric terminals present, "neither is less" is reflexive and
-   transitive (true whenever none of them is a NaN) *)
+(* cse() with the repaired comparator, for every well-formed individual (its
+   ephemeral constants are numbers: part of ind_ok_b, established by the
+   constructors from the contract of random::between<double>) *)
 Theorem C02_cse_wf : forall ss patch i i',
-  wf_sset_b ss = true -> ind_ok_b ss patch (i_gen i) = true -> params_swo_b (i_gen i) = true ->
+  wf_sset_b ss = true -> ind_ok_b ss patch (i_gen i) = true ->
   cse i = Some i' ->
   ind_ok_b ss patch (i_gen i') = true /\ i_age i' = i_age i /\ i_xt i' = i_xt i.
 Proof. exact cse_wf. Qed.
@@ -175,7 +175,7 @@ Example C02_ex_sset_wf : wf_sset_b ex_ss = true.
 Proof. vm_compute. reflexivity. Qed.
 Example C02_ex_random_ind :
   match ex_ind with
-  | Some i => ind_ok_b ex_ss 1 (i_gen i) && params_swo_b (i_gen i) && Nat.eqb (rows (i_gen i)) 3
+  | Some i => ind_ok_b ex_ss 1 (i_gen i) && Nat.eqb (rows (i_gen i)) 3
   | None => false
   end = true.
 Proof. vm_compute. reflexivity. Qed.
@@ -212,7 +212,7 @@ Proof. vm_compute. reflexivity. Qed.
    ephemeral constants 1, 1.000008, 1.000016 -- neighbours are almost_equal
    (1e-5 relative tolerance), the outer pair is not, so a comparator built on
    almost_equal is not a strict weak ordering; the exact "<" of the repaired
-   gene_cmp distinguishes all three and meets the hypothesis of C02_cse_wf *)
+   gene_cmp distinguishes all three *)
 Definition ex_na : f64 := F64.of_bits 0x3FF0000000000000.
 Definition ex_nb : f64 := F64.of_bits 0x3FF00008637BD05B.
 Definition ex_nc : f64 := F64.of_bits 0x3FF00010C6F7A0B6.
@@ -220,4 +220,12 @@ Example C02_ex_tolerance_boundary :
   almost_equal ex_na ex_nb = true /\ almost_equal ex_nb ex_nc = true /\ almost_equal ex_na ex_nc = false /\
   par_incomp ex_na ex_nb = false /\ par_incomp ex_nb ex_nc = false /\ par_incomp ex_na ex_nc = false /\
   par_incomp ex_nb ex_nb = true.
+Proof. vm_compute. repeat split; reflexivity. Qed.
+
+(* one-point crossover on 2 rows: the empty range between(1,1); every size_t
+   the generator may hand back is accepted and copies rows cut..R-1 *)
+Example C02_ex_one_point_two_rows :
+  between_or_any 1 1 [DInt 1 1 (2 ^ 64 - 1)]%Z = Some ((2 ^ 64 - 1)%Z, []) /\
+  rows_from (2 ^ 64 - 1) 2 = [] /\ rows_from 0 2 = [0; 1] /\ rows_from 1 2 = [1] /\
+  between_or_any 1 2 [DInt 1 2 5]%Z = None.
 Proof. vm_compute. repeat split; reflexivity. Qed.
